@@ -482,8 +482,8 @@ def run_case(desc):
                 if names and names <= dual:
                     sig += ':path-listed-as-manifest-and-as-file'
                 elif names and names <= {'Manifest.gz', 'Manifest.bz2',
-                                         'Manifest.lzma', 'Manifest.xz'} \
-                        and c['cmd'] == 'create':
+                                         'Manifest.lzma', 'Manifest.xz'}:
+                    # (the create itself, or any update after it)
                     sig += ':create-next-to-compressed-top-level'
                 elif names and all(
                         any(c.startswith('.') for c in n.split('/'))
